@@ -68,6 +68,8 @@ type access struct {
 type Sched struct {
 	MapPoints bool
 	Horizon   int
+	ticks       []*thread
+	clockOffset atomic.Int64 // virtual clock = real clock + offset (ns); timers advance it
 	// TimerDurations records the delay requested by every AfterFunc of this run
 	TimerDurations []time.Duration
 
@@ -307,6 +309,29 @@ func (s *Sched) launch(t *thread, fn func()) {
 		fn()
 	}()
 	<-ready
+}
+
+func (s *Sched) advanceClockPast(deadline time.Time) {
+	if d := deadline.Sub(Now()); d >= 0 {
+		s.clockOffset.Add(int64(d) + int64(time.Millisecond))
+	}
+}
+
+func (s *Sched) addTick(t *thread) {
+	s.mu.Lock()
+	s.ticks = append(s.ticks, t)
+	s.mu.Unlock()
+}
+
+// dropTicks removes the deadline threads of cancelled contexts (called when a later deadline is armed).
+func (s *Sched) dropTicks() {
+	s.mu.Lock()
+	ticks := s.ticks
+	s.ticks = nil
+	s.mu.Unlock()
+	for _, t := range ticks {
+		s.cancelTimer(t)
+	}
 }
 
 func (s *Sched) cancelTimer(t *thread) bool {
